@@ -310,7 +310,9 @@ impl Scenario for Roundtrip {
         let full = self.mode != Mode::C01;
         let mut sources = vec![];
         let want_src = match self.mode {
-            Mode::C01 | Mode::C17 => 0,
+            Mode::C01 => 0,
+            // "every preceding archive state": one C17 run in four has a raw-copy source at hand
+            Mode::C17 => Rng::derive(s, "c17-src").chance(1, 4) as u64,
             Mode::C14 => rs.range(1, 2),
             Mode::C13 => {
                 if rs.chance(1, 4) {
@@ -463,7 +465,28 @@ impl Scenario for Roundtrip {
                 }
                 let mut ops = vec![];
                 let mut used = vec![];
+                let mut rp = Rng::derive(s, "c17-pre");
                 for _ in 0..r.range(1, 5) {
+                    // what precedes the aligned / extra-data entry: nothing, or an entry of another kind that leaves
+                    // its own state behind in the writer (raw copy, writer reopened for append, directory, symlink,
+                    // encrypted entry)
+                    if rp.chance(1, 4) {
+                        match rp.below(6) {
+                            0 | 1 if !src_lens.is_empty() && src_lens[0] > 0 => {
+                                ops.push(Op::RawCopy { src: 0, how: rp.below(3) as u8, index: rp.usize_below(src_lens[0]), rename: Some(format!("copied{}", ops.len())) });
+                            }
+                            2 => {
+                                ops.push(Op::Finish);
+                                ops.push(Op::Append);
+                            }
+                            3 => ops.push(Op::AddDir { name: format!("dir{}", ops.len()), o: Opts::default() }),
+                            4 => ops.push(Op::AddSymlink { name: format!("link{}", ops.len()), target: "target".into(), o: Opts::default() }),
+                            _ => {
+                                ops.push(Op::StartFile { name: format!("enc{}", ops.len()), o: Opts { password: Some(Hex(b"pw".to_vec())), ..Opts::default() } });
+                                ops.push(Op::Write { c: Content::Lit(Hex(b"secret".to_vec())), split: vec![] });
+                            }
+                        }
+                    }
                     let name = gen_name(&mut r, &used, false);
                     used.push(name.clone());
                     let o = gen_opts(&mut r, &cfg.methods);
